@@ -224,10 +224,17 @@ loop:
 		chunks[i] = results[i]
 	}
 
+	// The digest flag in the index has to match the algorithm the chunk IDs
+	// were made with, it's checked when the index is read.
+	var digestFlag uint64
+	if Digest.Algorithm() == crypto.SHA512_256 {
+		digestFlag = CaFormatSHA512256
+	}
+
 	// Build and return the index
 	index := Index{
 		Index: FormatIndex{
-			FeatureFlags: CaFormatExcludeNoDump | CaFormatSHA512256,
+			FeatureFlags: CaFormatExcludeNoDump | digestFlag,
 			ChunkSizeMin: c.Min(),
 			ChunkSizeAvg: c.Avg(),
 			ChunkSizeMax: c.Max(),
